@@ -7,18 +7,19 @@ PROP = {
    'timeout': {'quick': 900, 'thorough': 3000}},
  ],
  'assumptions': [
-  'EpochVersioning (C04, hypothesis of C07_coherent / C07_convergence): a broker step never makes a payload that '
-  'was not ahead of the view served for its address (older epoch, or same epoch and same content) ahead of it',
-  'CommitInv for every cluster (C10/C01: positions, twins, compacted ranges) - hypothesis of C07_commit_once and '
-  'C07_convergence',
-  'AllOk in the fault-free suffix: every address the broker serves is served without panic (C01) and has a running '
-  'process whose announce host is the host of its registered nodes (otherwise the proxy answers NOT_MY_META forever)',
+  'the broker-side hypotheses of C07_coherent / C07_convergence / C07_commit_once (EpochVersioning, CommitInv, views '
+  'never panic) are discharged in the *_reachable corollaries by C04 (view_steps, Frame), C01 (cinv_reachableB, '
+  'proxyView_partition), C10 (commitInv_of_invs) and C13 (recovered epochs); what remains there is environmental:',
+  'PlanBound: the broker history never has a cluster with more than 16384 masters (C01)',
+  'EnvOk in the fault-free suffix: every address the broker serves has a running process whose announce host is the '
+  'host of its registered nodes (otherwise the proxy answers NOT_MY_META forever)',
+  'targets is the permutation of the expected proxies that BrokerOrderedProxiesRetriever produced (validated by the model)',
   'failure reports do not expire during a run (failure_ttl is large; the clock of get_failures is C18)',
   'fewer than 100 proxies / 10 clusters per listing page and chunk (one page + the empty page; the chunked '
   'streams of the retrievers then issue their calls in the modelled order)',
  ],
  'gaps': [
-  'C07_convergence assumes that every registered proxy is reachable during the two fault-free rounds (AllOk); with '
+  'C07_convergence(_reachable) assumes that every registered proxy is reachable during the two fault-free rounds (EnvOk); with '
   'a registered proxy that stays down, check_and_sync aborts the remaining tasks of a proxy whose task names it and '
   'more (sync, migration) round pairs are needed - not bounded by a constant',
   'the sync round takes the order in which BrokerOrderedProxiesRetriever yields the proxies as an input (it depends on '
@@ -54,13 +55,15 @@ CHECK = {
          'broker serves for that address. (convergence) from any coherent state with nothing in flight, K = 2 '
          'fault-free rounds (migration sync, then proxy sync) leave every target proxy with exactly '
          'proxyView broker a limit (epoch, cluster map, replication map; OLD_EPOCH counted as success) and no polled '
-         'running proxy reporting a finished task that is still pending. The model is tied to the code by running the '
+         'running proxy reporting a finished task that is still pending; the *_reachable corollaries state this for every state of '
+         'every execution (SysReach) with the broker-side hypotheses discharged by C01/C04/C10, and '
+         'C07_reconverge_after_recovery for a broker restored from any bounded snapshot + recover_epoch (C13). The model is tied to the code by running the '
          'real coordinator rounds against the real broker service and real proxies under seeded fault plans and '
          'comparing, after every call, the reply, every proxy (epoch, view digest) and the broker (pending tasks, '
          'store digest); an oracle on the implementation alone checks no epoch regression, single commit, dst before '
          'src and convergence after the fault-free suffix.',
  'note': 'Trusted: Lean kernel; model transliteration (checked per call every run); broker adapter / fake network / '
-         'migration gating of the harness. Hypotheses EpochVersioning (C04), CommitInv (C10) and AllOk are explicit. '
+         'migration gating of the harness. Remaining hypotheses are environmental (PlanBound, EnvOk, targets). '
          'F6 (non-total comparator in BrokerOrderedProxiesRetriever): no panic observed on rustc 1.95 in any run; the '
          'harness wraps every component in catch_unwind and reports a panic as an oracle failure.',
 }
